@@ -81,6 +81,7 @@ type call struct {
 	done chan struct{}
 	err  error
 	got  bool // next: an announcement was returned
+	afterClose bool // a Close call had returned before this call was started
 }
 
 const prompt = 2 * time.Second
@@ -132,6 +133,15 @@ func execute(t *testing.T, c Case) (viol string, hang string) {
 	seen := map[int]bool{}
 	start := func(s step) *call {
 		cl := &call{op: s.Op, done: make(chan struct{})}
+		for _, prev := range calls {
+			if prev.op == "close" {
+				select {
+				case <-prev.done:
+					cl.afterClose = true
+				default:
+				}
+			}
+		}
 		ci := cidOf(s.Cid)
 		go func() {
 			defer close(cl.done)
@@ -335,6 +345,9 @@ func execute(t *testing.T, c Case) (viol string, hang string) {
 			if cl.err != nil && !errors.Is(cl.err, announce.ErrClosed) {
 				return fmt.Sprintf("call %d: Direct returned %v", i, cl.err), ""
 			}
+			if cl.afterClose && !errors.Is(cl.err, announce.ErrClosed) {
+				return fmt.Sprintf("call %d: Direct started after a Close call had returned gave %v, want the closed error (whether or not its CID was announced before)", i, cl.err), ""
+			}
 			_ = closeSeen
 		case "next":
 			if cl.err != nil && !errors.Is(cl.err, announce.ErrClosed) {
@@ -344,6 +357,13 @@ func execute(t *testing.T, c Case) (viol string, hang string) {
 	}
 	// calls made after Close returned: closed error, promptly
 	late := []*call{start(step{Op: "direct", Cid: 99}), start(step{Op: "next"}), start(step{Op: "uncache", Cid: 1}), start(step{Op: "close"})}
+	// also a CID that the receiver has (probably) seen before it was closed
+	for _, st := range c.Steps {
+		if st.Op == "direct" {
+			late = append(late, start(step{Op: "direct", Cid: st.Cid}))
+			break
+		}
+	}
 	deadline := time.Now().Add(prompt)
 	for i, cl := range late {
 		select {
@@ -360,6 +380,9 @@ func execute(t *testing.T, c Case) (viol string, hang string) {
 	}
 	if late[1].err != nil && !errors.Is(late[1].err, announce.ErrClosed) {
 		return fmt.Sprintf("Next after Close returned %v, want the closed error", late[1].err), ""
+	}
+	if len(late) > 4 && !errors.Is(late[4].err, announce.ErrClosed) {
+		return fmt.Sprintf("Direct after Close of a CID announced before the Close returned %v, want the closed error", late[4].err), ""
 	}
 	if late[3].err != nil {
 		return fmt.Sprintf("second Close returned %v", late[3].err), ""
